@@ -63,7 +63,7 @@ def main():
         seen = []
 
         def ff(p):
-            k = term_key(term_of(p))
+            k = term_key(term_of(p)) + "|" + repr(p)      # structure AND the exact text of the program (every value)
             h = hashlib.sha1(k.encode()).hexdigest()[:16]
             v = int(h[:6], 16) % 1000
             seen.append([h, v])
@@ -104,7 +104,7 @@ def main():
                 a = OnePlusOne(problem, budget, rep, rs, **kw)
             best = a.search()
             ph = best.get_phenotype()
-            k = term_key(term_of(ph))
+            k = term_key(term_of(ph)) + "|" + repr(ph)
             res = [hashlib.sha1(k.encode()).hexdigest()[:16], int(best.get_fitness(problem).fitness_components[0])]
             runs.append({"evals": seen, "result": res, "exc": ""})
         except Exception as e:  # recorded, judged by the spec
